@@ -163,6 +163,7 @@ func (r *Run) opAuthorize(st Step) {
 		}
 	}
 	fmt.Sscanf(st.p("preset_id_exp"), "%d", &con.PresetIDExp)
+	con.PresetIDAud = st.p("preset_id_aud") != ""
 	fmt.Sscanf(st.p("preset_at_exp"), "%d", &con.PresetATExp)
 	if st.p("no_auth_time") != "" {
 		con.NoAuthTime = true
@@ -471,6 +472,9 @@ func (r *Run) opRedeem(st Step) {
 	if a := st.p("audience"); a != "" {
 		form.Set("audience", a)
 	}
+	if gt := st.p("grant_type"); gt != "" {
+		form.Set("grant_type", gt) // a space-separated LIST where a single value belongs
+	}
 	if cid := st.p("client_id"); cid != "" {
 		if cid == "victim" {
 			cid = g.Client // a foreign client naming the code's owner in the body while identifying itself in the header
@@ -583,6 +587,15 @@ func (r *Run) judgeRedeem(st Step, code *Cred, cs *ClientSpec, res *Resp, sentRe
 		}
 		r.probeGrant(g, "after a refused redemption (client lacks grant type)")
 		return
+	}
+	if st.p("grant_type") != "" {
+		// grant_type carried a LIST: not a well-formed authorization_code request. Refusing it must not touch any state; if it is
+		// served all the same, every rule about the code applies (below)
+		r.probe("redeem-grant-type-list")
+		if !tokens {
+			r.probeGrant(g, "after a refused request with a grant_type list")
+			return
+		}
 	}
 	if code.Unspec || g.Unspec {
 		if tokens && code.State != Live {
@@ -727,7 +740,7 @@ func (r *Run) judgeRedeem(st Step, code *Cred, cs *ClientSpec, res *Resp, sentRe
 		return
 	}
 	// refused although no statement gives a reason
-	if exp == Must && pkceSpecified && r.mustSucceedOK(g) {
+	if exp == Must && pkceSpecified && r.mustSucceedOK(g) && st.p("grant_type") == "" {
 		if g.ViaPAR && g.Params["par_conflicts"] != "" {
 			r.violate("C17", "pushed-value-overridden", "redeem", "%s: refused (%s) - the code was issued from a pushed request that was used with conflicting query parameters [%s]; the authorization must have proceeded with the pushed values", desc, res.ErrName, g.Params["par_conflicts"])
 		} else if code.Extra["retry_must"] != "" {
